@@ -107,3 +107,13 @@ func readFile(p string) (string, error) {
 	b, err := os.ReadFile(p)
 	return string(b), err
 }
+
+// repoDir is the yaccgo source tree under test: /repo unless VERIF_REPO says
+// otherwise (used to run the checks against a scratch worktree that carries a
+// seeded change, without touching /repo).
+func repoDir() string {
+	if r := os.Getenv("VERIF_REPO"); r != "" {
+		return r
+	}
+	return "/repo"
+}
